@@ -122,7 +122,7 @@ Definition odisjoint (a b : option loc) : bool :=
 
 (* ---- facts *)
 Inductive fact :=
-| FCopy (op : string) (d s : operand) (n : Z).   (* mem[d .. d+n) = source_op[s .. s+n), valid now *)
+| FCopy (op : string) (d s n : operand).   (* mem[d .. d+n) = source_op[s .. s+n), valid now; n a plain word *)
 
 Definition operand_eqb (a b : operand) : bool :=
   match a, b with
@@ -143,21 +143,24 @@ Definition same_new (C : certs) (a b : operand) : bool := operand_eqb a b || (is
 
 Definition mentions (x : N) (o : operand) : bool := match o with OVar y => N.eqb x y | _ => false end.
 Definition fact_mentions (fc : fact) (x : N) : bool :=
-  match fc with FCopy _ d s _ => mentions x d || mentions x s end.
+  match fc with FCopy _ d s n => mentions x d || mentions x s || mentions x n end.
 Definition kill_outs (F : list fact) (outs : list N) : list fact :=
   filter (fun fc => negb (existsb (fact_mentions fc) outs)) F.
 (* a write to w (None = unknown location) kills a fact unless both its destination and (for mcopy) its source are
    provably disjoint from w *)
+Definition size_lit (o : operand) : option Z := match o with OLit z => Some (z mod W) | _ => None end.
 Definition survives (C : certs) (w : option loc) (fc : fact) : bool :=
   match fc with
   | FCopy op d s n =>
-      odisjoint (loc_of C d (Some n)) w &&
-      (if String.eqb op "mcopy" then odisjoint (loc_of C s (Some n)) w else true)
+      odisjoint (loc_of C d (size_lit n)) w &&
+      (if String.eqb op "mcopy" then odisjoint (loc_of C s (size_lit n)) w else true)
   end.
 Definition kill_write (C : certs) (F : list fact) (w : option loc) : list fact := filter (survives C w) F.
 Definition not_rd (fc : fact) : bool := match fc with FCopy op _ _ _ => negb (String.eqb op "returndatacopy") end.
 
-Definition size_lit (o : operand) : option Z := match o with OLit z => Some (z mod W) | _ => None end.
+
+(* the size operand may be remembered in a fact: a literal or a variable (the fact dies when the variable is redefined) *)
+Definition is_plain_size (C : certs) (n : operand) : bool := match n with OLab _ => false | _ => true end.
 
 (* facts after executing instruction i (of the BEFORE program) *)
 Definition step_facts (C : certs) (F : list fact) (i : inst) : list fact :=
@@ -175,18 +178,14 @@ Definition step_facts (C : certs) (F : list fact) (i : inst) : list fact :=
     | [n; s; d] =>
         let w := loc_of C d (size_lit n) in
         let F := kill_write C F w in
-        match size_lit n with
-        | Some nz =>
-            (* bytes copied from a region that is itself a valid copy of some source are a copy of that source too *)
-            let derived := flat_map (fun fc => match fc with FCopy op dF sF nF =>
-                               if (nF =? nz) && same_val C s dF &&
-                                  (if String.eqb op "mcopy" then odisjoint w (loc_of C sF (Some nz)) else true)
-                               then [FCopy op d sF nz] else [] end) F in
-            if exact (cert_op C d) then
-              (if odisjoint w (loc_of C s (Some nz)) then [FCopy "mcopy" d s nz] else []) ++ derived ++ F
-            else F
-        | None => F
-        end
+        (* bytes copied from a region that is itself a valid copy of some source are a copy of that source too *)
+        let derived := flat_map (fun fc => match fc with FCopy op dF sF nF =>
+                           if operand_eqb nF n && same_val C s dF &&
+                              (if String.eqb op "mcopy" then odisjoint w (loc_of C sF (size_lit n)) else true)
+                           then [FCopy op d sF n] else [] end) F in
+        if is_plain_size C n then
+          (if odisjoint w (loc_of C s (size_lit n)) then [FCopy "mcopy" d s n] else []) ++ derived ++ F
+        else F
     | _ => []
     end
   else if is_nonmem_copy op then
@@ -194,10 +193,7 @@ Definition step_facts (C : certs) (F : list fact) (i : inst) : list fact :=
     | [n; s; d] =>
         let w := loc_of C d (size_lit n) in
         let F := kill_write C F w in
-        match size_lit n with
-        | Some nz => if exact (cert_op C d) then FCopy op d s nz :: F else F
-        | None => F
-        end
+        if is_plain_size C n then FCopy op d s n :: F else F
     | _ => []
     end
   else
@@ -218,23 +214,53 @@ Fixpoint list_eqb {A} (eqb : A -> A -> bool) (l m : list A) : bool :=
   | x :: l', y :: m' => eqb x y && list_eqb eqb l' m'
   | _, _ => false
   end.
+Definition ann_eqb (x y : option operand) : bool :=
+  match x, y with None, None => true | Some p, Some q => operand_eqx p q | _, _ => false end.
 Definition inst_eqb (a b : inst) : bool :=
   String.eqb (i_op a) (i_op b) && list_eqb operand_eqx (i_args a) (i_args b) && list_eqb N.eqb (i_outs a) (i_outs b) &&
-  Bool.eqb (i_wm a) (i_wm b) && Bool.eqb (i_wrd a) (i_wrd b) && (i_id a =? i_id b).
+  Bool.eqb (i_wm a) (i_wm b) && Bool.eqb (i_wrd a) (i_wrd b) && (i_id a =? i_id b) &&
+  list_eqb ann_eqb (i_ann a) (i_ann b).
 
 (* R1: mcopy d, s, n  ~>  op2 d, s2, n   given a valid fact  mem[s..s+n) = op2-source[s2..s2+n)
-   R2: mcopy d, s, n  ~>  nop            given a valid fact  mem[d..d+n) = mem[s..s+n) *)
+   R2: mcopy d, s, n  ~>  nop            given a valid fact  mem[d..d+n) = mem[s..s+n)
+   R4: invoke .., t, ..  ~>  invoke .., s, ..  at an operand annotated read-only with observable size sz, given a valid
+       fact mem[t..t+sz) = mem[s..s+sz), when no operand the callee may write through points into the allocation of s *)
+Definition region_of (C : certs) (o : operand) : option (option Z) := match cert_op C o with Some (r, _) => Some r | None => None end.
+Fixpoint ro_args_ok (C : certs) (F : list fact) (all_new : list operand) (all_ann : list (option operand))
+                    (a a' : list operand) (ann : list (option operand)) : bool :=
+  match a, a', ann with
+  | [], [], [] => true
+  | x :: r, x' :: r', an :: rn =>
+      (operand_eqx x x' ||
+       match an with
+       | None => false
+       | Some sz =>
+           existsb (fun fc => match fc with FCopy op dF sF nF =>
+                      String.eqb op "mcopy" && operand_eqb sz nF && same_val C x dF && same_new C x' sF end) F &&
+           (* aliasing: the new operand's allocation is not reachable through a writable operand *)
+           match region_of C x' with
+           | Some (Some rg) =>
+               forallb (fun p => match snd p with
+                                 | Some _ => true
+                                 | None => match fst p with
+                                           | OLab _ => true
+                                           | o => match region_of C o with Some r => negb (oeqb r (Some rg)) | None => false end
+                                           end
+                                 end) (combine all_new all_ann)
+           | Some None => true
+           | None => false
+           end
+       end) && ro_args_ok C F all_new all_ann r r' rn
+  | _, _, _ => false
+  end.
 Definition justified (C : certs) (F : list fact) (i i' : inst) : bool :=
   if String.eqb (i_op i) "mcopy" then
     match i_args i, i_outs i with
     | [n; s; d], [] =>
-        match size_lit n with
-        | None => false
-        | Some nz =>
           if String.eqb (i_op i') "nop" then
             match i_args i', i_outs i' with
             | [], [] => existsb (fun fc => match fc with FCopy op dF sF nF =>
-                                   String.eqb op "mcopy" && (nF =? nz) && same_val C d dF && same_val C s sF end) F
+                                   String.eqb op "mcopy" && operand_eqb nF n && same_val C d dF && same_val C s sF end) F
             | _, _ => false
             end
           else if is_copy_op (i_op i') then
@@ -242,13 +268,16 @@ Definition justified (C : certs) (F : list fact) (i i' : inst) : bool :=
             | [n'; s2; d'], [] =>
                 operand_eqb n n' && operand_eqb d d' &&
                 existsb (fun fc => match fc with FCopy op dF sF nF =>
-                           String.eqb op (i_op i') && (nF =? nz) && same_val C s dF && same_new C s2 sF end) F
+                           String.eqb op (i_op i') && operand_eqb nF n && same_val C s dF && same_new C s2 sF end) F
             | _, _ => false
             end
           else false
-        end
     | _, _ => false
     end
+  else if String.eqb (i_op i) "invoke" then
+    String.eqb (i_op i') "invoke" && list_eqb N.eqb (i_outs i) (i_outs i') && Bool.eqb (i_wm i) (i_wm i') &&
+    Bool.eqb (i_wrd i) (i_wrd i') && (i_id i =? i_id i') && list_eqb ann_eqb (i_ann i) (i_ann i') &&
+    ro_args_ok C F (i_args i') (i_ann i) (i_args i) (i_args i') (i_ann i)
   else false.
 
 Fixpoint check_insts (C : certs) (F : list fact) (b b' : list inst) : bool :=
@@ -270,7 +299,7 @@ Definition check_block (C : certs) (F0 : list fact) (b b' : list inst) : bool :=
    E(entry) = [] and for every CFG edge b -> l, every fact of E(l) is among the facts at the end of b *)
 Definition fact_eqb (a b : fact) : bool :=
   match a, b with
-  | FCopy o1 d1 s1 n1, FCopy o2 d2 s2 n2 => String.eqb o1 o2 && operand_eqb d1 d2 && operand_eqb s1 s2 && (n1 =? n2)
+  | FCopy o1 d1 s1 n1, FCopy o2 d2 s2 n2 => String.eqb o1 o2 && operand_eqb d1 d2 && operand_eqb s1 s2 && operand_eqb n1 n2
   end.
 Definition fact_in (fc : fact) (F : list fact) : bool := existsb (fact_eqb fc) F.
 Definition subset (A B : list fact) : bool := forallb (fun fc => fact_in fc B) A.
@@ -299,7 +328,7 @@ Definition check_func (C : certs) (E : list (list fact)) (f f' : func) : bool :=
 Definition universe (C : certs) (f : func) : list fact :=
   flat_map (fun i => if is_copy_op (i_op i) then
                        match i_args i with
-                       | [n; s; d] => match size_lit n with Some nz => [FCopy (i_op i) d s nz] | None => [] end
+                       | [n; s; d] => [FCopy (i_op i) d s n]
                        | _ => []
                        end
                      else []) (all_insts f).
